@@ -767,8 +767,8 @@ class ExecS(Exec):
                 if fields is not None and isinstance(cur, ObjV):
                     nf = dict(cur.fields)
                     for f in fields:
-                        if f not in cur.fields:
-                            continue
+                        if f not in cur.fields or isinstance(cur.fields[f], CArr):
+                            continue        # C array field: its contents are havocked through havoc_arrays
                         nf[f] = fresh_like(cur.fields[f], f"{v}.{f}")
                         h.pc += shape_invariants(nf[f])
                     h.env[v] = ObjV(cur.cls, nf)
